@@ -25,7 +25,7 @@ CLAUSES = {
     "C05": ({"C05"}, set()),
     "C06": ({"C06"}, {"C02", "C03", "C09:NothingAfterTerminal"}),
     "C09": ({"C09"}, set()),
-    "C11": ({"C11"}, set()),
+    "C11": ({"C11", "C09:HistAgreesWithRecord"}, set()),    # "the last history event reports the same status": shared with C09
 }
 
 
